@@ -338,3 +338,73 @@ def epoch_tables(df, center, epochs, drop_samples=False):
 def epoch_rows_enc(df, center):
     rows = sample_rows(df, center)
     return '[' + ','.join('[%d,[%s]]' % (i, ','.join(str(v) for v in r)) for i, r in enumerate(rows)) + ']'
+
+# ---------------------------------------------------------------- the COMPOSED Lean model against a whole table
+TH_DEFAULTS_CYCLES = {'amp_fraction_threshold': 0.0, 'amp_consistency_threshold': 0.5, 'period_consistency_threshold': 0.5, 'monotonicity_threshold': 0.8, 'min_n_cycles': 3}
+SHAPE_COLS = ['period', 'time_peak', 'time_trough', 'volt_peak', 'volt_trough', 'time_decay', 'time_rise', 'volt_decay', 'volt_rise', 'volt_amp', 'time_rdsym', 'time_ptsym', 'band_amp']
+SHAPE_INT = {0, 1, 2, 5, 6}
+FEAT_COLS = ['amp_fraction', 'amp_consistency', 'period_consistency', 'monotonicity']
+
+def _close_atom(fl, atom):
+    from fractions import Fraction
+    if atom in ('nan', 'inf', '-inf'):
+        return (fl != fl) if atom == 'nan' else (fl == float(atom))
+    if fl != fl or fl in (float('inf'), float('-inf')): return False
+    a, b = Fraction(fl), Fraction(atom)
+    return abs(a - b) <= Fraction(1, 10**9) * max(abs(a), abs(b), 1)
+
+def pipeline_request(sig, fs, f_range, center, fk, boundary, pad, th):
+    """the driver request `pipeline.model` for compute_features(sig, ..., burst_method='cycles') (None when a kernel refuses the input): the composed
+    Lean model `pipelineCycles` (Pipeline.lean) - the object of C01_pipeline, C09_mirror, C10_amplitude, C14_fit_is_pipeline"""
+    import kernels, proto
+    sig = np.asarray(sig, dtype=float)
+    s2 = sig if center == 'peak' else -sig
+    try:
+        padn, b = kernels.filt_sign(s2, fs, tuple(f_range), fk, True if pad is None else pad)
+        amp = kernels.band_amp(s2, fs, tuple(f_range), n_cycles=3)
+    except Exception:
+        return None
+    full = dict(TH_DEFAULTS_CYCLES, **(th or {}))
+    return 'pipeline.model %s %s %d %s %s %d [%s]' % (center, proto.enc_list(sig), padn, proto.enc_bits(b), proto.enc_list(amp), 0 if boundary is None else boundary,
+                                                      ','.join(proto.enc_rat(full[k]) for k in ('amp_fraction_threshold', 'amp_consistency_threshold', 'period_consistency_threshold',
+                                                                                                 'monotonicity_threshold', 'min_n_cycles')))
+
+def pipeline_projections(ans, df, center, th):
+    """the composed model's answer against the implementation's whole table, PROJECTION BY PROJECTION (each property's check uses its own):
+    {'samples' | 'shape' | 'feats' | 'labels': None (agree) / 'tie: ...' (a discrete decision on a float coincidence) / message}"""
+    import proto
+    out = dict(samples=None, shape=None, feats=None, labels=None)
+    if not (isinstance(ans, list) and ans and ans[0] == 'ok'):
+        msg = 'the composed model answers %r although the implementation returned a table' % (ans,)
+        return dict(samples=msg, shape=msg, feats=msg, labels=msg)
+    _, samples, shape, feats, labels = ans
+    if len(shape) != len(df):
+        msg = 'row count: composed model %d, implementation %d' % (len(shape), len(df))
+        return dict(samples=msg, shape=msg, feats=msg, labels=msg)
+    if any(col.startswith('sample_') for col in df.columns):
+        rows = [[str(v) for v in row] for row in sample_rows(df, center)]
+        if rows != samples: out['samples'] = 'sample columns differ from the composed model'
+    for i, row in enumerate(shape):
+        for k, col in enumerate(SHAPE_COLS):
+            v = df[col].values[i]
+            ok = (int(v) == int(row[k]) and float(v) == int(v)) if k in SHAPE_INT else _close_atom(float(v), row[k])
+            if not ok and out['shape'] is None: out['shape'] = 'row %d column %s: implementation %r, composed model %s' % (i, col, float(v), row[k])
+    if any(col not in df.columns for col in FEAT_COLS + ['is_burst']):      # (a shape-only table)
+        return out
+    va = sorted(float(v) for v in df['volt_amp'].values)
+    near_rank_tie = any(b - a <= 1e-12 * max(abs(a), abs(b)) for a, b in zip(va, va[1:]))      # (equal or nearly equal FLOAT amplitudes: their exact values may be ordered either way)
+    for i, row in enumerate(feats):
+        for k, col in enumerate(FEAT_COLS):
+            if out['feats'] is None and not _close_atom(float(df[col].values[i]), row[k]):
+                out['feats'] = ('tie: amplitude ranks (two amplitudes agree to 1e-12 relative)' if col == 'amp_fraction' and near_rank_tie
+                                else 'row %d feature %s: implementation %r, composed model %s' % (i, col, float(df[col].values[i]), row[k]))
+    have = proto.enc_bits(list(df['is_burst'].values.astype(bool)))
+    if have != labels:
+        full = dict(TH_DEFAULTS_CYCLES, **(th or {}))
+        out['labels'] = 'labels: implementation %s, composed model %s' % (have, labels)
+        if out['feats'] is not None and out['feats'].startswith('tie:'): out['labels'] = 'tie: labels follow the amplitude ranks'
+        for i in range(len(df)):
+            for col in FEAT_COLS:
+                v = float(df[col].values[i]); t = float(full[col + '_threshold'])
+                if v == v and abs(v - t) <= 1e-9 * max(1.0, abs(t)): out['labels'] = 'tie: %s of row %d within 1e-9 of its threshold' % (col, i)
+    return out
